@@ -338,9 +338,30 @@ func Run(cfg Config) Report {
 	go r.consumer(&wg)
 	done := make(chan struct{})
 	go func() { wg.Wait(); close(done) }()
-	select {
-	case <-done:
-	case <-time.After(cfg.Timeout):
+	finished := false
+	limit := time.After(cfg.Timeout)
+	var failedAt time.Time
+wait:
+	for {
+		select {
+		case <-done:
+			finished = true
+			break wait
+		case <-limit:
+			break wait
+		case <-time.After(50 * time.Millisecond):
+			// once one side has reported a violation the other may be stuck behind it (a panic with
+			// the lock held): do not wait for the watchdog then
+			if r.stop.Load() {
+				if failedAt.IsZero() {
+					failedAt = time.Now()
+				} else if time.Since(failedAt) > 2*time.Second {
+					break wait
+				}
+			}
+		}
+	}
+	if !finished {
 		r.fail("conc-deadlock", "no completion within %v: Enqueue calls started %d, returned %d; consumer's last call: %v", cfg.Timeout, r.started.Load(), r.returned.Load(), r.lastOp.Load())
 		r.mu.Lock()
 		rep := r.rep
